@@ -268,13 +268,9 @@ var _ sasl.Client = plainSASL{}
 
 var c10HookOnce sync.Once
 
-func evalC10Client(c C10ClientCase) (f *h.Finding) {
-	desc := fmt.Sprintf("%+v", c)
-	defer func() {
-		if p := recover(); p != nil {
-			f = h.F("c10-client-panic", "%s: the client panicked: %v", desc, p)
-		}
-	}()
+// trustHarnessCA makes the TLS configuration that the package-level entry points (SendMail, DialStartTLS with a nil
+// configuration) build for themselves trust the harness's certificate (hook in /repo/verif_hooks.go).
+func trustHarnessCA() {
 	c10HookOnce.Do(func() {
 		smtp.VerifSetStartTLSHook(func(cfg *tls.Config) {
 			if cfg.RootCAs == nil {
@@ -285,6 +281,16 @@ func evalC10Client(c C10ClientCase) (f *h.Finding) {
 			cfg.ServerName = "srv.example"
 		})
 	})
+}
+
+func evalC10Client(c C10ClientCase) (f *h.Finding) {
+	desc := fmt.Sprintf("%+v", c)
+	defer func() {
+		if p := recover(); p != nil {
+			f = h.F("c10-client-panic", "%s: the client panicked: %v", desc, p)
+		}
+	}()
+	trustHarnessCA()
 	srv := &fakeTLSServer{}
 	var callErr error
 	var authCaps string
